@@ -201,6 +201,20 @@ pub fn root_cause(panics: &[rt::core::PanicRec]) -> Option<&rt::core::PanicRec> 
     panics.iter().find(|p| !p.contained && !consequence(p)).or_else(|| panics.iter().find(|p| !consequence(p))).or(panics.first())
 }
 
+/// Class of "the calling thread panicked inside an API call". A caller that trips over a lock
+/// poisoned by an earlier panic is a consequence of that panic and is classed with it
+/// (`poisoned_after_panic:<file>:<stem>`), so that an open finding is recognised through this
+/// consequence too and an unrelated poisoning is not hidden behind a generic class.
+pub fn caller_panic_class(prefix: &str, msg: &str) -> String {
+    if msg.contains("PoisonError") {
+        let root = rt::core::with_ctx(|c| root_cause(&c.panics).filter(|p| !p.message.contains("PoisonError")).map(|p| format!("poisoned_after_panic:{}:{}", file_of(&p.location), stem(&p.message))));
+        if let Some(r) = root {
+            return r;
+        }
+    }
+    format!("{prefix}:{}", stem(msg))
+}
+
 pub fn panic_message(p: &Box<dyn std::any::Any + Send>) -> String {
     let s = if let Some(s) = p.downcast_ref::<&str>() {
         s.to_string()
@@ -507,7 +521,7 @@ impl Env {
             Err(p) => {
                 let msg = panic_message(&p);
                 rt::core::log("op_return", || format!("ingest req={} panicked", req.id));
-                self.violate(&format!("ingest_panicked:{}", stem(&msg)), format!("ingest_efficient panicked in the caller: {msg}"));
+                self.violate(&caller_panic_class("ingest_panicked", &msg), format!("ingest_efficient panicked in the caller: {msg}"));
             }
         }
     }
